@@ -34,13 +34,12 @@ fn ref_pos(chars: &[char; K], k: usize) -> Position {
     Position { line, character: col }
 }
 
-// @unit id=lsp.apply_change props=C14 tier=quick kind=bounded bound="texts of <= 3 chars (full char domain), one ranged change over every boundary pair, inserted text <= 1 char" timeout=2400 fn=apply_content_changes,position_to_offset
+// @unit id=lsp.apply_change props=C14 tier=quick kind=bounded bound="texts of exactly 3 chars (full char domain), one ranged change over every boundary pair, inserted text <= 1 char" timeout=2400 fn=apply_content_changes,position_to_offset
 #[kani::proof]
 #[kani::unwind(16)]
 fn lsp_apply_change() {
     let chars: [char; K] = [kani::any(), kani::any(), kani::any()];
-    let n: usize = kani::any();
-    kani::assume(n <= K);
+    let n: usize = K; // constant length (a symbolic length doubles CBMC's memory); shorter texts: thorough tier of lsp_utils
     let (i, j): (usize, usize) = (kani::any(), kani::any());
     kani::assume(i <= j && j <= n);
     let ins: char = kani::any();
@@ -81,4 +80,52 @@ fn lsp_apply_full_change() {
     let got = apply_content_changes("old text\n", &[change]);
     kani::cover!(n == 3);
     assert!(got.as_deref() == Some(new_text.as_str()));
+}
+
+// Two ranged changes in ONE notification: the second range is resolved against the text produced by
+// the first (LSP: changes apply in order to the evolving document).
+// @unit id=lsp.apply_two_changes props=C14 tier=quick kind=bounded bound="text of 2 symbolic ASCII non-newline chars; two insertions of one concrete char at symbolic boundaries" timeout=2400 fn=apply_content_changes,position_to_offset
+#[kani::proof]
+#[kani::unwind(16)]
+fn lsp_apply_two_changes() {
+    let a: u8 = kani::any();
+    let b: u8 = kani::any();
+    kani::assume(a >= 0x20 && a < 0x7f && b >= 0x20 && b < 0x7f);
+    let mut original = String::new();
+    original.push(a as char);
+    original.push(b as char);
+    // first insertion at boundary i of the 2-char text, second at boundary j of the resulting 3-char text
+    let i: u32 = kani::any();
+    let j: u32 = kani::any();
+    kani::assume(i <= 2 && j <= 3);
+    let c1 = TextDocumentContentChangeEvent {
+        range: Some(Range { start: Position { line: 0, character: i }, end: Position { line: 0, character: i } }),
+        range_length: None,
+        text: "X".to_string(),
+    };
+    let c2 = TextDocumentContentChangeEvent {
+        range: Some(Range { start: Position { line: 0, character: j }, end: Position { line: 0, character: j } }),
+        range_length: None,
+        text: "Y".to_string(),
+    };
+    let got = apply_content_changes(&original, &[c1, c2]);
+    // editor's view: insert X at i, then Y at j of the new text
+    let mut step1 = [0u8; 3];
+    let mut k = 0usize;
+    let mut w = 0usize;
+    let src = [a, b];
+    while w < 3 {
+        if w == i as usize { step1[w] = b'X'; } else { step1[w] = src[k]; k += 1; }
+        w += 1;
+    }
+    let mut step2 = [0u8; 4];
+    let (mut k2, mut w2) = (0usize, 0usize);
+    while w2 < 4 {
+        if w2 == j as usize { step2[w2] = b'Y'; } else { step2[w2] = step1[k2]; k2 += 1; }
+        w2 += 1;
+    }
+    kani::cover!(i == 0 && j == 3);
+    kani::cover!(i == 2 && j == 0);
+    let ok = matches!(&got, Some(t) if t.as_bytes() == &step2[..]);
+    assert!(ok, "changes of one notification apply in order, each to the text produced by the previous one");
 }
